@@ -270,7 +270,7 @@ func c14Round(e *vfEnv, r *vfkit.R, rng *rand.Rand, round int) {
 				continue
 			}
 			reported = true
-			r.Violation("unanswered:"+kt[0], fmt.Sprintf("{%s} request %s on %s by %s was never answered (first unanswered request of the session)", kt[0], id, kt[1], wk.c.name), map[string]any{"last_frames": frames2raw(tail(frames, 12)), "last_sends": c14LastSends(wk.c, 45), "closed": wk.c.isClosed()})
+			r.Violation("unanswered:"+kt[0], fmt.Sprintf("{%s} request %s on %s by %s was never answered (first unanswered request of the session)", kt[0], id, kt[1], wk.c.name), map[string]any{"last_frames": frames2raw(tail(frames, 12)), "last_sends": c14LastSends(wk.c, 45), "closed": wk.c.isClosed(), "srvlog": vfSrvLogGrep(40, kt[1])})
 		}
 	}
 	// (2) session lists topic <=> topic lists session; closed sessions are nowhere
